@@ -157,6 +157,18 @@ func TestLambdaAuxAfterKey(t *testing.T) {
 	}).Test(t)
 }
 
+func TestLambdaAuxAfterKeyUpperCase(t *testing.T) {
+	// Lambda list keywords are symbols, their case does not matter.
+	(&sliptest.Function{
+		Source: `((lambda (&KEY x &AUX a (b 2) (c 3) (d (+ b c))) (list x a d)) :x 1)`,
+		Expect: "(1 nil 5)",
+	}).Test(t)
+	(&sliptest.Function{
+		Source: `((lambda (&key (x 1) &Aux (d (+ x 4))) (list x d)))`,
+		Expect: "(1 5)",
+	}).Test(t)
+}
+
 // func TestLambdaCallReturnNoTag(t *testing.T) {
 // 	(&sliptest.Function{
 // 		Source: `((lambda (x) (return 3) x) 5)`,
